@@ -101,7 +101,7 @@ func c13child(args []string) {
 	case "conc": // many concurrent combined writes, no faults
 		n := 40
 		if thorough() {
-			n = 300
+			n = 250 // object IDs of the harness are one byte wide
 		}
 		mk(fstree.WithCombinedCountLimit(8), fstree.WithCombinedWriteInterval(2*time.Millisecond))
 		res := make([]int, n)
